@@ -15,7 +15,7 @@ PROPS_FILE = "Props/C10.v"
 PROPS_MODULE = "Props.C10"
 RULE = ("seeded generator of tempo scripts (1..6 changes, bpm from dyadic/decimal/awkward families, metronomes 1..8 "
         "changing on measure lines, pairwise on the 1/96 grid) and query multisets (unsorted, duplicates, grid points of "
-        "every denominator, +-eps off grid); a case is non-trivial when it has >=2 tempo changes or >=2 distinct queries; "
+        "every denominator, +-eps off grid; cumulative beats also at arbitrary off-grid times; tempo lists also handed over shuffled); a case is non-trivial when it has >=2 tempo changes or >=2 distinct queries; "
         "distinct by hash of the canonical JSON of the input")
 ASSUMPTIONS = [
     "binary64 rounding inside the implementation is not modelled: the exact stream runs the implementation on "
@@ -25,11 +25,20 @@ ASSUMPTIONS = [
 ]
 TRUSTED = []
 MANIFEST = dict(
-    text="Machine-checked theorems (Coq 8.16.1) about an executable Gallina model of Snapper/Snap/TimingMap over exact rationals: "
-         "nearest-allowed-fraction, within 1/192, idempotence for every input and every table satisfying the structural obligations "
-         "(re-checked on the table regenerated from the live Snapper each run); the model is tied to the code by in-Coq correspondence "
-         "(implementation executed on fractions.Fraction, exact equality) plus the integration oracle evaluated on implementation outputs.",
+    text="Machine-checked theorems (Coq 8.16.1, Props/C10.v, all closed under the global context) about an executable Gallina model of "
+         "Snapper/Snap/TimingMap over exact rationals, for ALL inputs in boolean domains that the runner also evaluates on every case: "
+         "(1) snapper: nearest allowed fraction, within 1/192, idempotent, for every table meeting the structural obligations (re-checked on the "
+         "table regenerated from the live Snapper each run); (2) position->ms: offsets = piecewise-linear integration, in query order "
+         "(C10_offsets_on_grid, incl. that re-derived positions are the script's); (3) ms->position->ms: snaps succeeds, query order, normalised "
+         "positions, time within beat_length/192 of the query and equal on the snap grid relative to the active change, offsets(snaps(os)) returns "
+         "those times (C10_ms_roundtrip), and snaps(times of on-grid positions) = the positions (C10_position_roundtrip); (4) cumulative beats, "
+         "constant metronome: = measure*M+beat of the snapped position, within 1/192 of the integral of bpm/60000 and equal on the grid, differences "
+         "= integrated beat distance, monotone in time for all times (C10_beats, C10_beats_of_positions); (5) tempo changes in any order with "
+         "distinct offsets give the same map (C10_any_order, C10_any_order_on_grid). Nothing is partial. The model is tied to the code by in-Coq "
+         "correspondence (implementation executed on fractions.Fraction, exact equality, tempo lists also shuffled) plus the theorems' conclusions "
+         "evaluated on the implementation's outputs.",
     note="Trusted: Coq kernel+VM, harness generator/serialiser, gen_tables translator; binary64 rounding measured (rounded stream, tol 1e-6 ms) not proved; "
+         "integer metronomes (runner: 1..8), beats for one shared metronome, queries at or after the first change; "
          "theorems are 'Closed under the global context'.",
     technique="Coq proof over executable model + vm_compute correspondence against the implementation",
     design="4/C10")
